@@ -12,13 +12,18 @@ import (
 	"strings"
 	"time"
 
+	"github.com/cosmos/cosmos-sdk/crypto/keys/ed25519"
+	"github.com/cosmos/cosmos-sdk/crypto/keys/secp256k1"
 	sdk "github.com/cosmos/cosmos-sdk/types"
+	stakingkeeper "github.com/cosmos/cosmos-sdk/x/staking/keeper"
+	stakingtypes "github.com/cosmos/cosmos-sdk/x/staking/types"
 
 	"github.com/osmosis-labs/osmosis/osmomath"
 	clmodel "github.com/osmosis-labs/osmosis/v31/x/concentrated-liquidity/model"
 	"github.com/osmosis-labs/osmosis/v31/x/gamm/pool-models/balancer"
 	"github.com/osmosis-labs/osmosis/v31/x/gamm/pool-models/stableswap"
 	incentivestypes "github.com/osmosis-labs/osmosis/v31/x/incentives/types"
+	poolmanagertypes "github.com/osmosis-labs/osmosis/v31/x/poolmanager/types"
 	superfluidtypes "github.com/osmosis-labs/osmosis/v31/x/superfluid/types"
 	txfeestypes "github.com/osmosis-labs/osmosis/v31/x/txfees/types"
 )
@@ -41,6 +46,9 @@ type setupSpec struct {
 	MinDistr  string     `json:"min_distr"`  // incentives MinValueForDistribution in uosmo ("" = leave default)
 	Protorev  [][]string `json:"protorev"`   // [base denom, other denom, pool id]: protorev's highest-liquidity pool of the pair
 	Superfluid []string  `json:"superfluid"` // share denoms (gamm/pool/N, cl/pool/N) enabled for superfluid staking
+	TakerFee   string    `json:"taker_fee"`  // poolmanager default taker fee ("" = leave the default 0)
+	TakerShare [][]string `json:"taker_share"` // [denom, skim percent, account index]: taker fee share agreements
+	ExtraVals  int       `json:"extra_vals"` // validators created in addition to the genesis validator
 }
 
 func mustInt(s string) osmomath.Int {
@@ -91,6 +99,21 @@ func (c *chain) setup(tc tcase) {
 		}
 	}
 	c.SetupConcentratedLiquidityDenomsAndPoolCreation()
+	for i := 0; i < s.ExtraVals; i++ {
+		pk := ed25519.GenPrivKeyFromSecret([]byte(fmt.Sprintf("c19-validator-%d", i+1))).PubKey()
+		op := sdk.AccAddress(secp256k1.GenPrivKeyFromSecret([]byte(fmt.Sprintf("c19-operator-%d", i+1))).PubKey().Address())
+		self := sdk.NewCoin(sdk.DefaultBondDenom, sdk.DefaultPowerReduction.MulRaw(int64(2+i)))
+		c.FundAcc(op, sdk.NewCoins(self))
+		zero := osmomath.ZeroDec()
+		msg, err := stakingtypes.NewMsgCreateValidator(sdk.ValAddress(op).String(), pk, self,
+			stakingtypes.NewDescription(fmt.Sprintf("v%d", i+1), "", "", "", ""), stakingtypes.NewCommissionRates(zero, zero, zero), osmomath.OneInt())
+		if err != nil {
+			panic(err)
+		}
+		if _, err := stakingkeeper.NewMsgServerImpl(a.StakingKeeper).CreateValidator(c.Ctx, msg); err != nil {
+			panic(fmt.Sprintf("create validator %d: %v", i+1, err))
+		}
+	}
 	// incentives are distributed at the end of the day epoch (the default genesis says "week"); set before any pool
 	// exists: pool-incentives' ExportGenesis looks a concentrated pool's gauge up by the *current* epoch duration
 	a.IncentivesKeeper.SetParam(c.Ctx, incentivestypes.KeyDistrEpochIdentifier, "day")
@@ -144,6 +167,9 @@ func (c *chain) setup(tc tcase) {
 	for _, pr := range s.Protorev {
 		a.ProtoRevKeeper.SetPoolForDenomPair(c.Ctx, pr[0], pr[1], mustInt(pr[2]).Uint64())
 	}
+	if s.TakerFee != "" {
+		a.PoolManagerKeeper.SetParam(c.Ctx, poolmanagertypes.KeyDefaultTakerFee, mustDec(s.TakerFee))
+	}
 	if len(s.Superfluid) > 0 {
 		// superfluid delegation creates a gauge over the unbonding time, which must be a lockable duration
 		up, err := a.StakingKeeper.GetParams(c.Ctx)
@@ -165,6 +191,24 @@ func (c *chain) setup(tc tcase) {
 		a.IncentivesKeeper.SetParam(c.Ctx, incentivestypes.KeyMinValueForDistr, sdk.NewCoin("uosmo", mustInt(s.MinDistr)))
 	}
 	_ = time.Second
+}
+
+// lateSetup runs after the first block has been committed: governance-only messages through the registered message
+// servers, as a passed proposal would execute them.
+// Taker-fee share agreements: the poolmanager AppModule holds its own COPY of the keeper
+// (poolmanager.NewAppModule(*app.PoolManagerKeeper, ...)) and the agreements are cached in a map field that BeginBlock
+// re-assigns on that copy only. Before the first BeginBlock the copy still shares the map with app.PoolManagerKeeper,
+// so an agreement set earlier would also reach the keeper that gamm / superfluid / protorev use - a state of the
+// process that a restarted or re-imported node never has.
+func (c *chain) lateSetup(tc tcase) {
+	gov := c.App.AccountKeeper.GetModuleAddress("gov").String()
+	for _, ts := range tc.Setup.TakerShare {
+		msg := &poolmanagertypes.MsgSetTakerFeeShareAgreementForDenom{Sender: gov, Denom: ts[0], SkimPercent: mustDec(ts[1]),
+			SkimAddress: c.accAddr(int(mustInt(ts[2]).Int64())).String()}
+		if _, err := c.RunMsg(msg); err != nil {
+			panic(fmt.Sprintf("taker fee share agreement %v: %v", ts, err))
+		}
+	}
 }
 
 // ---- export --------------------------------------------------------------------------------------------
